@@ -154,16 +154,21 @@ PROPS["C14"] = {
     "stages": [c14stage.stage],
     "mem_gb": 10,
     "functions": ["translation::standard::initialise_iupac_to_amino (29-row table, re-extracted from source on every run)",
-                  "Standard::try_to_amino (first-match search loop; length check)", "SeqSlice<Iupac>::contains (subset test; real code under C12's harnesses)"],
-    "bounds": {"all": "forward translation only. SMT: symbolic 12-bit codon (three 4-bit symbols), all 15^3 gap-free codons for soundness/completeness "
-                      "in one query each, z3 4.8.12 diffed against cvc5 1.0; encoding tied to the real function by exhaustive native replay of all "
-                      "16^3 codons and of every codon of length 0,1,2,4 (quick) / 0,1,2,4,5 (thorough) at three slice offsets"},
-    "outside": "reverse translation try_to_codon (std HashMap; not applicable to this technique, see MANIFEST notes)",
-    "level_text": "forward half: the solver decides soundness and completeness of the extracted first-match table against NCBI table 1 for all "
-                  "gap-free IUPAC codons; the extraction/encoding is validated against the real function on every codon (exhaustive native replay)",
-    "technique": "SMT (z3, cross-checked with cvc5) over the pattern table extracted from source + exhaustive native replay tying the encoding to the real function",
-    "explanation": "solver over extracted table; reverse half not applicable",
-    "assumptions": ["try_to_codon (reverse translation through a std HashMap) is NOT covered: not applicable to solver-based checking here"],
+                  "Standard::try_to_amino (first-match search loop; length check)", "Standard::try_to_codon (inverse map; evaluated natively on its whole 21-value domain)",
+                  "SeqSlice<Iupac>::contains (subset test; real code under C12's harnesses)"],
+    "bounds": {"all": "forward: SMT over a symbolic 12-bit codon (three 4-bit symbols), all 15^3 gap-free codons for soundness/completeness in one query each, "
+                      "z3 4.8.12 diffed against cvc5 1.0; the encoding is tied to the real function by exhaustive native replay of all 16^3 codons and of every "
+                      "codon of length 0,1,2,4 (quick) / 0,1,2,4,5 (thorough) at three slice offsets. reverse: per amino acid the solver decides whether an IUPAC "
+                      "codon exists whose member set is exactly that amino acid's DNA codons (21 queries, both solvers); the real try_to_codon is evaluated "
+                      "natively on all 21 amino symbols (its complete domain) and must return such a codon (which must translate back) exactly when one exists"},
+    "outside": "nothing within the finite domains; the std HashMap behind try_to_codon is executed natively, not symbolically",
+    "level_text": "the solver decides soundness/completeness of the extracted first-match table against NCBI table 1 for all gap-free IUPAC codons and, for the "
+                  "reverse direction, the existence of an exact IUPAC codon per amino acid; the extraction/encoding is validated against the real functions on "
+                  "every input of their finite domains (exhaustive native replay)",
+    "technique": "SMT (z3, cross-checked with cvc5) over the pattern table extracted from source + exhaustive native replay tying the encoding to the real functions",
+    "explanation": "solver over extracted table + complete native enumeration of the finite domains",
+    "assumptions": ["try_to_codon's HashMap is executed natively over its complete 21-value input domain (not symbolically); its result does not depend on "
+                    "hash seeds because the map is filled from the ordered row array"],
 }
 
 PROPS["C07"] = {
